@@ -2,6 +2,7 @@
 from __future__ import annotations
 
 import json
+import os
 from typing import List, Tuple
 
 from .. import valuecheck
@@ -85,12 +86,60 @@ def body(sub, root: tuple, tv: TV, extra=None) -> List[Tuple[str, str, str, str]
 valuecheck.register("C01", body)
 
 
+def coverage_guided(ctx: Ctx, procs: int, runs: int) -> dict:
+    """thorough-tier extra: atheris/libFuzzer campaigns over the same typed-value strategy (see lspverif/fuzz_c01.py)."""
+    import re
+    import shutil
+    import subprocess
+    import sys
+    from .. import gen, runner
+    deps = os.path.join(runner.VERIF, ".deps")
+    if not os.path.isdir(os.path.join(deps, "atheris")):
+        return {"skipped": "atheris is not installed under /verif/.deps (setup.sh unpacks it from the offline wheelhouse)"}
+    d = gen.scratch("lspverif-fuzz-")
+    try:
+        ps = []
+        for i in range(procs):
+            os.makedirs(os.path.join(d, f"corpus{i}"))
+            cmd = [sys.executable, "-B", "-m", "lspverif.fuzz_c01", os.path.join(d, f"f{i}.jsonl"), f"-runs={runs}",
+                   f"-seed={(ctx.seed * 1000 + i) % (2**31) or 1}", "-max_len=4096", "-len_control=0", os.path.join(d, f"corpus{i}")]
+            ps.append(subprocess.Popen(cmd, cwd=runner.VERIF, stdout=subprocess.DEVNULL, stderr=subprocess.PIPE, text=True,
+                                       env=dict(os.environ, PYTHONHASHSEED="0", PYTHONDONTWRITEBYTECODE="1")))
+        stats = {"campaigns": procs, "runs_per_campaign": runs, "target_executions": 0, "libfuzzer_cov": [], "findings": 0}
+        for i, pr in enumerate(ps):
+            _, err = pr.communicate(timeout=7200)
+            m = re.findall(r"cov: (\d+) ft: (\d+)", err or "")
+            if m:
+                stats["libfuzzer_cov"].append([int(m[-1][0]), int(m[-1][1])])
+            path = os.path.join(d, f"f{i}.jsonl")
+            if not os.path.exists(path):
+                continue
+            for line in open(path):
+                rec = json.loads(line)
+                if "progress" in rec:
+                    stats["target_executions"] = max(stats["target_executions"], 0)
+                    stats.setdefault("_p", {})[i] = rec["progress"]
+                elif rec.get("known"):
+                    ctx.finding(tuple(rec["signature"]), "found by the coverage-guided campaign", None)
+                else:
+                    stats["findings"] += 1
+                    ctx.finding(tuple(rec["signature"]), rec["detail"] + " [coverage-guided campaign]", rec["case"])
+        stats["target_executions"] = sum(stats.pop("_p", {}).values())
+        return stats
+    finally:
+        shutil.rmtree(d, ignore_errors=True)
+
+
 def run(ctx: Ctx) -> None:
     ctx.assumptions = [
         "the reference interpreter of the metamodel (lspverif/refmodel.py) reads lsp.json as the LSP specification intends",
         "an optional property that is not null-admitting and carries JSON null is equivalent to an absent one (docstring of is_special_property)",
     ]
     valuecheck.run_value_property(ctx, "C01", n_quick=40, n_thorough=1000, rule=RULE)
+    if not ctx.quick:
+        cg = coverage_guided(ctx, procs=16, runs=30000)
+        ctx.coverage["coverage_guided_campaign"] = cg
+        ctx.coverage["evaluations"] += cg.get("target_executions", 0)
 
 
 def replay(ctx: Ctx, path: str) -> int:
